@@ -374,6 +374,29 @@ func impl(ops []string) []string {
 
 var bigRounds = []int64{1<<53 + 1, 1<<62 + 3, -1, -7}
 
+const (
+	minI64 = -1 << 63
+	maxI64 = 1<<63 - 1
+)
+
+// wideRound draws a round from the WHOLE int64 range, biased to the values at which an int64 difference or sum of two
+// rounds wraps: the ends of the range, the points exactly 2^63 away from the round reported now, and small values.
+// `late` allows the top of the range (once MaxInt64 is adopted nothing newer exists).
+func wideRound(r *rand.Rand, cur int64, late bool) int64 {
+	lo := []int64{minI64, minI64 + 1, minI64 + 2, minI64 + cur - 1, minI64 + cur, minI64 + cur + 1, minI64 + 200,
+		cur - maxI64, cur - maxI64 - 1, cur - maxI64 - 2, -maxI64, -1 << 62, -1, 0, 1, cur - 1, cur, cur + 1, cur + 2}
+	hi := []int64{maxI64, maxI64 - 1, maxI64 - 5, 1 << 62, cur + maxI64, cur + maxI64 - 1, cur + maxI64 + 1}
+	switch x := r.Intn(10); {
+	case x < 6 || !late:
+		if x == 5 {
+			return int64(r.Uint64()) // anywhere
+		}
+		return lo[r.Intn(len(lo))]
+	default:
+		return hi[r.Intn(len(hi))]
+	}
+}
+
 func gen(r *rand.Rand, thorough bool, i int) []string {
 	self := 1 + r.Intn(2)
 	kind := "s"
@@ -381,6 +404,10 @@ func gen(r *rand.Rand, thorough bool, i int) []string {
 		kind = "m"
 	}
 	cur := int64(r.Intn(20))
+	wide := r.Intn(3) == 0 // a third of the cases use rounds from the whole int64 range
+	if wide {
+		cur = []int64{0, 1, 50, 150, 200, -1, -5, minI64, minI64 + 1, 1 << 40}[r.Intn(10)]
+	}
 	init := fmt.Sprintf("init %d %s %d %d", self, kind, cur, 1+r.Intn(99))
 	// ids 1,2: sharders of the current magic block; 3: a sharder that is registered but not in the current magic
 	// block; 4,5: miners — each registered most of the time, sometimes with other roles
@@ -409,7 +436,15 @@ func gen(r *rand.Rand, thorough bool, i int) []string {
 	if thorough {
 		n = 5 + r.Intn(120)
 	}
+	step := 0
 	round := func() int64 {
+		if wide && r.Intn(4) != 0 {
+			v := wideRound(r, cur, step*3 > n*2)
+			if v > cur && r.Intn(3) != 0 {
+				cur = v
+			}
+			return v
+		}
 		d := int64(r.Intn(7)) - 2
 		v := cur + d
 		if r.Intn(25) == 0 {
@@ -436,9 +471,14 @@ func gen(r *rand.Rand, thorough bool, i int) []string {
 		case x < 16:
 			sig = "junk"
 		}
+		if wide && r.Intn(5) != 0 {
+			// mostly valid tickets of the magic block's sharders, so that the extreme rounds reach the worker
+			return fmt.Sprintf("%d,%d,%d,good", round(), 1+r.Intn(2), 1+r.Intn(99))
+		}
 		return fmt.Sprintf("%d,%d,%d,%s", round(), 1+r.Intn(6), 1+r.Intn(99), sig)
 	}
 	for k := 0; k < n; k++ {
+		step = k
 		switch x := r.Intn(100); {
 		case x < 42:
 			ops = append(ops, "recv "+ticket())
@@ -566,7 +606,7 @@ func oracle(ops, outs []string) *corr.Violation {
 			}
 			r, _ := strconv.ParseInt(g[1], 10, 64)
 			if haveLast && r < last {
-				mk("latest-moves-backwards", fmt.Sprintf("op %d: reported round %d after round %d", i, r, last))
+				mk("reported-round-moved-backwards", fmt.Sprintf("op %d: reported round %d after round %d", i, r, last))
 			}
 			last, haveLast = r, true
 			if haveNeed && r < need {
@@ -622,6 +662,14 @@ func main() {
 				"recv 12,2,1,msgs", "recv 12,2,1,blank", "recv 12,2,1,junk", "recv 12,6,1,good", "get", "bcast 8 80", "get", "bcast 5 55", "get", "kick 20", "get",
 				"recvs 30,2,1,good 31,2,2,good 31,2,3,good 4,2,4,blank", "get", "bcasts 40,1 41,2 41,3 2,4", "get"},
 			{"init 2 m 0 1 N 1 s 1 N 2 s 1", "bcast 9 9", "get", "recv 3,1,3,good", "get", "kick 2", "get"},
+			// rounds over the whole int64 range: differences of two rounds wrap beyond 2^63 (the code compares, it does not subtract)
+			{"init 1 s 50 5 N 1 s 1 N 2 s 1", "recv 100,2,1,good", "get", "recv 70,2,2,good", "get", "recv 101,2,3,good", "get", "recv 0,2,4,good", "get",
+				"recv -1,2,5,good", "get", "recv 150,2,6,good", "get", "recv -9223372036854775608,2,7,good", "get", "recv -9223372036854775808,2,8,good", "get",
+				"recv 9223372036854775802,2,9,good", "get", "recv 151,2,10,good", "get", "recv -9223372036854775807,2,11,good", "get",
+				"recv 9223372036854775807,2,12,good", "get", "recv 9223372036854775807,2,13,msgr", "get"},
+			{"init 1 s 150 5 N 1 s 1 N 2 s 1", "kick -9223372036854775808", "get", "bcast -9223372036854775808 3", "get", "bcasts -9223372036854775700,1 -9223372036854775808,2", "get",
+				"recvs -9223372036854775808,2,1,good -9223372036854775658,2,2,good 151,2,3,good", "get", "bcast 9223372036854775807 9", "get", "kick 9223372036854775807", "get"},
+			{"init 1 s -9223372036854775808 5 N 1 s 1 N 2 s 1", "get", "recv 0,2,1,good", "get", "recv 9223372036854775807,2,2,good", "get", "recv -1,2,3,good", "get"},
 		},
 	})
 }
